@@ -100,6 +100,31 @@ class Sum:
         return self.sf.summand_at(self.params, t)
 
 
+_AC_KINDS = (z3.Z3_OP_AND, z3.Z3_OP_OR, z3.Z3_OP_ADD, z3.Z3_OP_MUL, z3.Z3_OP_EQ, z3.Z3_OP_DISTINCT, z3.Z3_OP_IFF)
+
+
+def _ac_sort(e, cache=None):
+    """rebuild the term with the arguments of commutative operators in a canonical (textual) order: z3's simplifier orders
+    them by AST id, which depends on the history of the process - two structurally equal summands must get the same key"""
+    cache = {} if cache is None else cache
+    k = e.get_id()
+    if k in cache:
+        return cache[k]
+    if z3.is_quantifier(e) or not z3.is_app(e) or e.num_args() == 0:
+        cache[k] = e
+        return e
+    args = [_ac_sort(c, cache) for c in e.children()]
+    kind = e.decl().kind()
+    if kind in _AC_KINDS:
+        args = sorted(args, key=lambda a: a.sexpr())
+    try:
+        r = e.decl()(*args)
+    except Exception:  # noqa: BLE001
+        r = e
+    cache[k] = r
+    return r
+
+
 def make(summand, n, hint="S"):
     """summand: python callable z3-Int-term -> z3 Real/Int term.  Returns Sum."""
     d = _depth[0]
@@ -111,7 +136,7 @@ def make(summand, n, hint="S"):
         T = to_real(to_term(summand(t0)))
     finally:
         _depth[0] -= 1
-    T = z3.simplify(T)
+    T = _ac_sort(z3.simplify(T))
     params, pvars, canon = _abstract_params(T, t0)
     canon = z3.substitute(canon, (t0, _TC))
     key = canon.sexpr()
@@ -233,6 +258,40 @@ def split_at(ctx, f, n, k, hint="S"):
     return whole, head, tail
 
 
+def point_update(ctx, f, g, n, k, hint="S", name="point_update"):
+    """(forall t in [0,n), t != k: f(t) = g(t)) and 0 <= k < n  ->  Σ g = Σ f - f(k) + g(k).  The premise is checked first."""
+    nt, kt = to_term(n), to_term(k)
+    sf, sg = make(f, nt, hint), make(g, nt, hint)
+    t = bv("t")
+    prem = z3.ForAll([t], z3.Implies(z3.And(t >= 0, t < nt, t != kt), to_real(to_term(f(t))) == to_real(to_term(g(t)))))
+    ob = ctx.check(f"{ctx.unit_name}/lemma_premise:{name}", prem, kind="lemma_premise")
+    if ob is not None and ob.status != "discharged":
+        raise core.EndPath()
+    ctx.assume(z3.Implies(z3.And(kt >= 0, kt < nt), sg.t == sf.t - to_real(to_term(f(kt))) + to_real(to_term(g(kt)))), "lemma:point_update")
+    return sf, sg
+
+
+def const_sum(ctx, c, n, hint="S"):
+    """n >= 0 -> Σ_{t<n} c = n c   (c does not depend on t)"""
+    ct, nt = to_real(to_term(c)), to_term(n)
+    sc = make(lambda t: ct, nt, hint)
+    ctx.assume(z3.Implies(nt >= 0, sc.t == z3.ToReal(nt) * ct), "lemma:const_sum")
+    return sc
+
+
+def member_le_sum(ctx, f, n, hint="S", name="member_le_sum"):
+    """(forall t in [0,n): f(t) >= 0)  ->  forall k in [0,n): f(k) <= Σ f.  The premise is checked first."""
+    nt = to_term(n)
+    sf = make(f, nt, hint)
+    t, k = bv("t"), bv("k")
+    prem = z3.ForAll([t], z3.Implies(z3.And(t >= 0, t < nt), to_real(to_term(f(t))) >= 0))
+    ob = ctx.check(f"{ctx.unit_name}/lemma_premise:{name}", prem, kind="lemma_premise")
+    if ob is not None and ob.status != "discharged":
+        raise core.EndPath()
+    ctx.assume(z3.ForAll([k], z3.Implies(z3.And(k >= 0, k < nt), to_real(to_term(f(k))) <= sf.t)), "lemma:member_le_sum")
+    return sf
+
+
 def telescope(ctx, G, a, L, hint="S"):
     """L >= 0  ->  Σ_{u<L} (G(a+u+1) - G(a+u)) = G(a+L) - G(a)     (G: python callable Int term -> Real term)"""
     at, Lt = to_term(a), to_term(L)
@@ -320,6 +379,23 @@ def prove_schemas(ctx):
     try:
         ctx.solver.add(z3.ForAll([t], z3.Implies(z3.And(t >= 0, t < n), f(t) == 0)))
         ind("zero", [sf_], lambda m: z3.Implies(m <= n, sf_.at(m) == 0))
+    finally:
+        ctx.solver.pop()
+    # const_sum
+    cs = make(lambda t: a, n, "Gc")
+    ind("const_sum", [cs], lambda m: cs.at(m) == z3.ToReal(m) * a)
+    # member_le_sum: f >= 0 -> f(k) <= Σ f
+    ctx.solver.push()
+    try:
+        ctx.solver.add(z3.ForAll([t], z3.Implies(z3.And(t >= 0, t < n), f(t) >= 0)), k >= 0, k < n)
+        ind("member_le_sum", [sf_], lambda m: z3.Implies(m <= n, z3.And(sf_.at(m) >= 0, z3.Implies(k < m, f(k) <= sf_.at(m)))))
+    finally:
+        ctx.solver.pop()
+    # point_update: f = g except at k
+    ctx.solver.push()
+    try:
+        ctx.solver.add(z3.ForAll([t], z3.Implies(z3.And(t >= 0, t < n, t != k), f(t) == g(t))), k >= 0, k < n)
+        ind("point_update", [sf_, sg_], lambda m: z3.Implies(m <= n, z3.If(m <= k, sg_.at(m) == sf_.at(m), sg_.at(m) == sf_.at(m) - f(k) + g(k))))
     finally:
         ctx.solver.pop()
     # telescope: Σ_{u<m} (f(k+u+1) - f(k+u)) = f(k+m) - f(k)
